@@ -74,6 +74,11 @@ def thaw(f):
 
 def explicit_elems(t):
     """Element values of an explicitly enumerated list (concat of single/fill(_,1)), else None."""
+    if t[0] == "zip":
+        a, b = explicit_elems(t[1]), explicit_elems(t[2])
+        if a is None or b is None:
+            return None
+        return [VTup([x, y]) for x, y in zip(a, b)]
     parts = list(t[1:]) if t[0] == "concat" else [t]
     out = []
     for p in parts:
@@ -323,8 +328,17 @@ def index_expr(I, st, fr, e, base, ix):
 
 def elem_of_gather(I, st, base, idx, e=None):
     """Placeholder for base[idx[i]] (i arbitrary): the arbitrary element of gather(base, idx)."""
-    g = ("gather", base, idx)
+    g = mk_gather(st, base, idx)
+    if g[0] != "gather":
+        # re-indexing along all positions in order: the arbitrary element of the array itself
+        g_is_plain = True
+    else:
+        g_is_plain = False
+        g = ("gather", base, idx)
     tyd = I.facts.ty(e["ty"]) if e is not None else None
+    if g_is_plain:
+        is_lbl = label_of(g) or (tyd is not None and tyd["k"] == "param")
+        return placeholder(st, g, "label" if is_lbl else "nat")
     if label_of(base) or (tyd is not None and tyd["k"] == "param"):
         return VUser(("elem", g))
     if tyd is not None and tyd["k"] == "adt" and tyd["path"] == "std::option::Option":
@@ -401,6 +415,13 @@ def _ph_atoms(p):
     return [a for a in p.atoms() if _mentions_ph(a)]
 
 
+def _mentions_ph_of(r, T):
+    """Does value r mention the arbitrary element of the mapped list T itself (not of the list underneath)?"""
+    key = ("elem", T)
+    fz = freeze(r)
+    return mentions(fz, {key})
+
+
 def flat_enum_base(T):
     """The sequence whose positions `enumidx` counts when iterating T."""
     while isinstance(T, tuple) and T and T[0] in ("enum",):
@@ -412,6 +433,8 @@ def lift_map(I, st, T, r):
     """The sequence whose arbitrary element is r, where r was computed from the arbitrary
     element of T (placeholders ('elem', X) / ('el', L, f))."""
     r = deref(I, st, r)
+    while T[0] in ("lmap", "emap") and not _mentions_ph_of(r, T):
+        T = T[1]        # an element-wise map of an element-wise map: one map over the underlying list
     if isinstance(r, VNat):
         at = _ph_atoms(r.p)
         if not at:
@@ -422,15 +445,21 @@ def lift_map(I, st, T, r):
             if not _ph_atoms(d):
                 base = mk_gather(st, X[1], X[2]) if X[0] == "gather" else X
                 return mk_shift(d, base)
-        if len(at) == 1 and at[0][0] == "enumidx" and r.p == Poly.atom(at[0]) and \
-                (at[0][1] == T or at[0][1] == flat_enum_base(T)):
-            return mk_arange(0, t_len(T))
+        if len(at) == 1 and at[0][0] == "enumidx" and (at[0][1] == T or at[0][1] == flat_enum_base(T)):
+            d = r.p - Poly.atom(at[0])
+            if not _ph_atoms(d):
+                return mk_arange(d, d + t_len(T))      # offset + running position
         if len(at) == 1 and at[0][0] == "get" and r.p == Poly.atom(at[0]) and not _mentions_ph(at[0][1]):
             # X[i] for the running index i of the enumeration: X re-indexed along 0..len(T)
             ix = as_poly(at[0][2])
             ixat = _ph_atoms(ix)
             if len(ixat) == 1 and ixat[0][0] == "enumidx" and ix == Poly.atom(ixat[0]):
                 return mk_gather(st, at[0][1], mk_arange(0, t_len(T)))
+            if len(ixat) == 1 and ixat[0][0] in ("elem", "enumidx"):
+                # X[k] with k an element-wise function of the list: X re-indexed along the list of the k
+                K = lift_map(I, st, T, VNat(ix))
+                if K[0] not in ("emap", "lmap"):
+                    return mk_gather(st, at[0][1], K)
         if len(at) == 1 and at[0][0] == "len" and r.p == Poly.atom(at[0]):
             # the length of a per-element sequence: sizes of the flattening
             return ("lens", T, at[0][1])
@@ -569,6 +598,99 @@ def effectful_map(I, st, fr, e, seq, f):
     for (s2, v, cc) in out:
         res.append((s2, s2.env[result_key], cc))
     return res
+
+
+def h_iter_fold(I, st, fr, e, c, a):
+    """iter.fold(init, f): `let mut acc = init; for x in iter { acc = f(acc, x) }; acc` as a loop over a synthetic
+    accumulator place (exact summaries where the idioms apply, invariant inference otherwise)."""
+    import loops
+    seq = as_list(I, st, fr, e, a[0])
+    init, f = a[1], a[2]
+    if seq.t == EMPTY:
+        return [(st, init, None)]
+    cfr = f.frame if isinstance(f, VClosure) else fr
+    cfr.map_ix = getattr(cfr, "map_ix", 0) + 1
+    rk = ("foldacc", cfr.map_ix)
+    key = (cfr.id, rk)
+    st.env[key] = init
+    roots = {rk}
+    if isinstance(f, VClosure):
+        roots |= set(loops.modified_roots(I, [f.node["body"]], f.frame))
+
+    def run_body(s, elem):
+        res = []
+        for (s2, v, cc) in I.apply_value(f, [s.env[key], elem], s, fr, e):
+            if cc is None:
+                s2.env[key] = deref(I, s2, v) if isinstance(v, VMutRef) else v
+                res.append((s2, UNIT, None))
+            else:
+                res.append((s2, v, cc))
+        return res
+    out = append_loop(I, st, cfr, e, seq, None, None, roots, run_body)
+    if out is None:
+        out = fold_loop(I, st, cfr, e, seq, None, None, roots, run_body)
+    if out is None:
+        def body(s):
+            res = []
+            for (s1, elem) in iter_elements(I, s, fr, e, a[0]):
+                res.extend(run_body(s1, elem))
+            return res
+        head, exits, others = loops.run_loop(I, st, cfr, e, roots, body, "fold", extra_values=[a[0]])
+        out = [(head, UNIT, None)] + exits + others
+    res = []
+    for (s2, v, cc) in out:
+        if cc is None:
+            res.append((s2, s2.env.get(key, VTop("fold")), None))
+        else:
+            res.append((s2, v, cc))
+    return res
+
+
+def h_iter_any(I, st, fr, e, c, a):
+    seq = as_list(I, st, fr, e, a[0])
+    if seq.t == EMPTY:
+        return [(st, FALSE, None)]
+    r = _quantifier(I, st, fr, e, seq, a[1], True)
+    if r is not None:
+        return r
+    return [(st, VBool(("unk", ("any", show_term(seq.t)[:80], fkey_of(a[1])))), None)]
+
+
+def h_iter_count(I, st, fr, e, c, a):
+    seq = as_list(I, st, fr, e, a[0])
+    return [(st, VNat(t_len(seq.t)), None)]
+
+
+def h_iter_take(I, st, fr, e, c, a):
+    seq = as_list(I, st, fr, e, a[0])
+    n = deref(I, st, a[1])
+    if not isinstance(n, VNat):
+        raise NotImplementedError("take")
+    ln = t_len(seq.t)
+    if st.ge(ln, n.p):
+        return [(st, VSeq(mk_slice(st, seq.t, Poly.const(0), n.p)), None)]
+    if st.ge(n.p, ln):
+        return [(st, seq, None)]
+    out = []
+    for s in I.assume(st.copy(), ("cmp", "ge", ln - n.p)):
+        out.append((s, VSeq(mk_slice(s, seq.t, Poly.const(0), n.p)), None))
+    for s in I.assume(st.copy(), ("cmp", "ge", n.p - ln - 1)):
+        out.append((s, seq, None))
+    return out
+
+
+def h_iter_skip(I, st, fr, e, c, a):
+    seq = as_list(I, st, fr, e, a[0])
+    n = deref(I, st, a[1])
+    if not isinstance(n, VNat):
+        raise NotImplementedError("skip")
+    ln = t_len(seq.t)
+    out = []
+    for s in I.assume(st.copy(), ("cmp", "ge", ln - n.p)):
+        out.append((s, VSeq(mk_slice(s, seq.t, n.p, ln)), None))
+    for s in I.assume(st.copy(), ("cmp", "ge", n.p - ln - 1)):
+        out.append((s, VSeq(EMPTY), None))
+    return out
 
 
 def fkey_of(f):
@@ -937,8 +1059,38 @@ def h_sum(I, st, fr, e, c, a):
     return [(st, VNat(t_sum(seq.t)), None)]
 
 
+def _quantifier(I, st, fr, e, seq, f, stop_on):
+    """all / any over an explicitly enumerated list: evaluate the predicate element by element with the short-circuit
+    of the standard library (stop at the first false for `all`, at the first true for `any`)."""
+    ex = explicit_elems(seq.t)
+    if ex is None:
+        return None
+    live = [st]
+    out = []
+    for x in ex:
+        nxt = []
+        for s1 in live:
+            for (s2, r, cc) in I.apply_value(f, [x], s1, fr, e):
+                if cc is not None:
+                    out.append((s2, r, cc))
+                    continue
+                fb = r.f if isinstance(r, VBool) else ("unk", ("quantifier", e.get("sp", "?")))
+                yes, no = I.branch(s2, fb)
+                stop, go = (no, yes) if stop_on is False else (yes, no)
+                out.extend((s3, FALSE if stop_on is False else TRUE, None) for s3 in stop)
+                nxt.extend(go)
+        live = nxt
+    out.extend((s1, TRUE if stop_on is False else FALSE, None) for s1 in live)
+    return out
+
+
 def h_all(I, st, fr, e, c, a):
     seq = as_list(I, st, fr, e, a[0])
+    if seq.t == EMPTY:
+        return [(st, TRUE, None)]
+    r = _quantifier(I, st, fr, e, seq, a[1], False)
+    if r is not None:
+        return r
     return [(st, VBool(("unk", ("all", show_term(seq.t)[:80], fkey_of(a[1])))), None)]
 
 
@@ -1043,6 +1195,11 @@ TABLE = {
     "std::iter::Iterator::enumerate": h_enumerate,
     "std::iter::Iterator::filter_map": h_filter_map,
     "std::iter::Iterator::filter": h_filter,
+    "std::iter::Iterator::fold": h_iter_fold,
+    "std::iter::Iterator::any": h_iter_any,
+    "std::iter::Iterator::count": h_iter_count,
+    "std::iter::Iterator::take": h_iter_take,
+    "std::iter::Iterator::skip": h_iter_skip,
     "std::vec::Vec::<T, A>::retain": h_retain,
     "std::iter::Iterator::unzip": h_unzip,
     "std::iter::Iterator::flat_map": h_flat_map,
@@ -1369,7 +1526,7 @@ def _subst_term_atoms(x, mapping):
     return x
 
 
-def fold_loop(I, st, fr, e, seq, pat, body, roots, run_body, ind=None):
+def fold_loop(I, st, fr, e, seq, pat, body, roots, run_body, ind=None, skip_bounds=frozenset()):
     """ind: loop-carried naturals found (by a first pass) to advance by a constant in every iteration (manual
     counters): in the second pass they hold their exact value  start + c * (iteration index)."""
     import loops
@@ -1382,6 +1539,7 @@ def fold_loop(I, st, fr, e, seq, pat, body, roots, run_body, ind=None):
     fr.loop_ix += 1
     lname = (fr.fn["path"] if fr.fn else "?", "loop%d" % fr.loop_ix)
     seq_mark, nat_mark = {}, {}
+    assumed_bounds = {}
     for r, (place, v) in entry.items():
         nv = v
         rn = str(names.get(r, r))
@@ -1389,6 +1547,13 @@ def fold_loop(I, st, fr, e, seq, pat, body, roots, run_body, ind=None):
             P = leaf(("acc",) + lname + (rn,) + path)
             seq_mark[(r, path)] = (P, leafv.t)
             head.add_ge(t_len(P) - t_len(leafv.t))
+            # element bounds of the entry value are assumed for the accumulator and re-established below for
+            # everything one iteration writes (inductive)
+            if not label_of(leafv.t) and not LIST_ELEM.get(leafv.t):
+                bs = [b for b in ubs(st, leafv.t) if not mentions(b, {leafv.t}) and ((r, path), b) not in skip_bounds]
+                for b in bs:
+                    head.add_bound(P, b)
+                assumed_bounds[P] = bs
             if label_of(leafv.t):
                 LABEL_LEAVES.add(P)
             nv = _set_path(nv, path, VSeq(P))
@@ -1466,6 +1631,23 @@ def fold_loop(I, st, fr, e, seq, pat, body, roots, run_body, ind=None):
     cls = [classify(s2) for (s2, _, _) in outs]
     if any(c is None for c in cls):
         return abort()
+    for (s2, _, _), c_ in zip(outs, cls):
+        for key_, k_ in c_.items():
+            if key_ not in seq_mark:
+                continue
+            P_ = seq_mark[key_][0]
+            for b in assumed_bounds.get(P_, ()):
+                held = True
+                if k_[0] == "upd":
+                    fv = k_[2]
+                    held = fv[0] == "nat" and s2.ge(b, as_poly(fv[1]) + 1)
+                elif k_[0] == "app":
+                    held = all(prove_bound(s2, x_, b) for x_ in k_[1])
+                if not held:
+                    # this bound of the entry value is not preserved by the loop: analyse again without assuming it
+                    abort()
+                    return fold_loop(I, st, fr, e, seq, pat, body, roots, run_body, ind=ind,
+                                     skip_bounds=skip_bounds | {(key_, b)})
     if not ind:
         # manual counters: the same constant increment on every path of the body
         found = {}
@@ -1475,7 +1657,7 @@ def fold_loop(I, st, fr, e, seq, pat, body, roots, run_body, ind=None):
                 found[key] = ks[0][1]
         if found:
             abort()
-            return fold_loop(I, st, fr, e, seq, pat, body, roots, run_body, ind=found)
+            return fold_loop(I, st, fr, e, seq, pat, body, roots, run_body, ind=found, skip_bounds=skip_bounds)
     changing = [i for i, c in enumerate(cls) if any(k[0] != "same" for k in c.values())]
     S = seq.t
     res = st.copy()
@@ -1534,6 +1716,22 @@ def fold_loop(I, st, fr, e, seq, pat, body, roots, run_body, ind=None):
     kinds = {k[0] for k in c.values()}
     if kinds <= {"same"} and ind:
         return finish({})
+    if kinds <= {"same", "app"} and ind:
+        final = {}
+        for (r, path), k in c.items():
+            if k[0] != "app":
+                continue
+            P, t0 = seq_mark[(r, path)]
+            lifted = []
+            for x in k[1]:
+                if mentions(x, all_marks) or mentions(x, nat_atoms):
+                    return abort()
+                y = lift_added(I, res, S, x, {})
+                if y is None or mentions(y, all_marks):
+                    return abort()
+                lifted.append(y)
+            final[(r, path)] = VSeq(mk_concat([t0] + lifted))
+        return finish(final)
     # ---- (i) indexed in-place updates
     if kinds <= {"same", "upd"} and "upd" in kinds:
         final = {}
@@ -1546,7 +1744,7 @@ def fold_loop(I, st, fr, e, seq, pat, body, roots, run_body, ind=None):
                 return abort()
             old = ("get", P, ip)
             if fval[0] == "nat":
-                val = fval[1].subst({old: Poly.atom(OLD)})
+                val = deep_subst(fval[1], {old: Poly.atom(OLD)})
                 if mentions(val, all_marks):
                     return abort()
                 fval = ("nat", val)
@@ -1662,6 +1860,28 @@ def _lift_selected(I, st, S, M, x):
     return None
 
 
+def _bound_under(a, t0):
+    """placeholder atoms that mention the element / position of t0 inside them (e.g. q[elem(t0)])"""
+    return mentions(a, {("elem", t0), ("enumidx", t0)})
+
+
+def deep_subst(x, mapping):
+    """Substitute atoms by polynomials, also where they occur inside other atoms (mapping: atom -> Poly)."""
+    if isinstance(x, Poly):
+        m2 = {}
+        for a in x.atoms():
+            if a in mapping:
+                m2[a] = mapping[a]
+            else:
+                na = deep_subst(a, mapping)
+                if na != a:
+                    m2[a] = Poly.atom(na)
+        return x.subst(m2) if m2 else x
+    if isinstance(x, tuple):
+        return tuple(deep_subst(y, mapping) for y in x)
+    return x
+
+
 def fold_update_term(I, st, S, t0, ip, fval):
     """The array t0 after `t0[ip] = val` for every element of S in order (ip, val over the placeholders of S; val may
     mention OLD, the element being overwritten).  Contract terms where the shape is one of the array primitives."""
@@ -1669,7 +1889,18 @@ def fold_update_term(I, st, S, t0, ip, fval):
     if fval[0] == "nat":
         val = fval[1]
         old = Poly.atom(OLD)
-        if not (val.atoms() & {OLD}):
+        if mentions(val, {OLD}) and K[0] == "arange" and st.eq(K[1], 0) and st.eq(K[2], t_len(t0)):
+            # every position is overwritten exactly once, in order, by a function of its old element (and of the
+            # position): an element-wise map of the old array
+            el = Poly.atom(("elem", t0))
+            body = deep_subst(val, {OLD: el})
+            ixs = [a for a in _ph_atoms(body) if a[0] == "enumidx"]
+            if all(a[1] == S or a[1] == flat_enum_base(S) for a in ixs):
+                body = deep_subst(body, {a: Poly.atom(("enumidx", t0)) for a in ixs})
+                if not [a for a in _ph_atoms(body) if a not in (("elem", t0), ("enumidx", t0)) and not _bound_under(a, t0)]:
+                    return lift_map(I, st, ("enum", t0) if ixs else t0, VNat(body))
+            return None
+        if not mentions(val, {OLD}):
             V = lift_map(I, st, S, VNat(val))
             if V[0] == "fill":
                 return ("sac", t0, K, as_poly(V[1]))
